@@ -27,11 +27,16 @@ def obligations(tier):
     t = 300 if tier == "quick" else 900
     obls = [CH("identity_symbolic_junk", H, "symbolic_junk", 60 if tier == "quick" else 600, mode="E1h", functions=F, stubs=[FMT],
                bounds="17 slots x 10 junk shapes, int unbounded / str <= 3 symbolic, allow_custom symbolic (bug hunting: inconclusive is expected)")]
+    obls.append(CH("dictionary_keys_symbolic", H, "symbolic_keys", 90 if tier == "quick" else 600, mode="E1h", plugin="none", functions=F + ["stix2.exceptions.DictionaryKeyError.__str__"],
+                   bounds="5 dictionary-typed sites x key: str <= 4 symbolic (real message formatting, no stub) x allow_custom (bug hunting: inconclusive is expected)"))
     for p in range(8):
         obls.append(CH("all_classes_slots_junk_p%d" % p, H, "table_junk", t, mode="E1s", functions=F, env={"VERIF_PART": str(p)},
-                       bounds="cases with index %% 8 == %d of (class, slot/nested site) x 19 junk values + deletion x allow_custom" % p))
+                       bounds="cases with index %% 8 == %d of (class, slot/nested site) x 35 junk values (every JSON kind, nested, format-hostile text and keys) + deletion x allow_custom" % p))
+    obls.append(CH("registered_toplevel_extensions_intact", H, "toplevel_extension_registry", t, mode="E1s", functions=F + ["stix2.registry.class_for_type"],
+                   bounds="identity carrying 6 combinations of 3 registered extensions (two toplevel-property) x 20 slots x 36 junk values (quick: a third) x allow_custom: "
+                          "registry incl. every class's property tables unchanged, and single-extension objects behave as before"))
     if tier == "thorough":
         for p in range(8):
             obls.append(CH("two_corruptions_p%d" % p, H, "table_junk_pairs", t * 2, mode="E1s", functions=F, env={"VERIF_PART": str(p)},
-                           bounds="cases with index %% 8 == %d x 10 second corruptions (extensions, granular_markings, custom_properties, spec_version, id, ...) x 26 junk values x allow_custom" % p))
+                           bounds="cases with index %% 8 == %d x 10 second corruptions (extensions, granular_markings, custom_properties, spec_version, id, ...) x 36 junk values x allow_custom" % p))
     return obls
